@@ -689,10 +689,17 @@ func GenerateLemma(w *World, lm *LemmaSpec) (res *UnitResult) {
 		env.Pkg = w.SSAPkgs[lm.Pkg]
 	}
 	for _, v := range lm.Vars {
-		if v.Type == "bool" {
+		switch v.Type {
+		case "bool":
 			env.Vars[v.Name] = SV{VBool{x.C.Const("lv!"+v.Name, SBool)}, tBool}
-		} else {
+		case "int", "":
 			env.Vars[v.Name] = SV{VInt{x.C.Const("lv!"+v.Name, SInt)}, tInt}
+		default:
+			// a typed lemma variable (slice, interface, pointer...): an arbitrary value of that type
+			T := env.resolveType(v.Type)
+			val := x.symbolic("lv!"+v.Name, T)
+			x.assume(st, x.typeInv(st, val, T))
+			env.Vars[v.Name] = SV{val, T}
 		}
 	}
 	t := env.evalBool(lm.Body)
